@@ -78,7 +78,7 @@ var vBounds = [][]byte{{}, {'0'}, {'a'}, {'b'}, {'c'}}
 func H_C08_Stack() {
 	nT, nK := vDims()
 	_, readers, newest, newestVal, anywhere := vStack(nT, nK)
-	s := NewSuperSSTableReader(readers, skiplist.BytesComparator{})
+	s := NewSuperSSTableReader(readers, vScaledComparator{})
 
 	for ki := 0; ki < nK; ki++ {
 		k := vKeyAsRead(vUniverse[ki])
@@ -137,9 +137,9 @@ func H_C08_MergeCompact() {
 	skip := vrt.Choose("reduce", 2) == 1
 	var err error
 	if skip {
-		err = NewSSTableMerger(skiplist.BytesComparator{}).MergeCompact(its, w, ScanReduceLatestWinsSkipTombstones)
+		err = NewSSTableMerger(vScaledComparator{}).MergeCompact(its, w, ScanReduceLatestWinsSkipTombstones)
 	} else {
-		err = NewSSTableMerger(skiplist.BytesComparator{}).MergeCompact(its, w, ScanReduceLatestWins)
+		err = NewSSTableMerger(vScaledComparator{}).MergeCompact(its, w, ScanReduceLatestWins)
 	}
 	vrt.Assert(err == nil, "mergecompact/no-error")
 	vExpectScan("mergecompact", nK, newest, newestVal, anywhere, nil, nil, false, false, skip, w.keys, w.vals)
@@ -176,7 +176,7 @@ func H_C08_Merge() {
 		its = append(its, NewMergeIteratorContext(i, sc))
 	}
 	w := &vCollect{failAt: -1}
-	err := NewSSTableMerger(skiplist.BytesComparator{}).Merge(its, w)
+	err := NewSSTableMerger(vScaledComparator{}).Merge(its, w)
 	vrt.Assert(err == nil, "merge/no-error")
 	want := 0
 	for ki := 0; ki < nK; ki++ {
